@@ -165,6 +165,10 @@ int main(int argc, char** argv) {
     printf("%llu\n", (unsigned long long)deriveSeed(strtoull(argv[3], nullptr, 10), argv[2], strtoull(argv[4], nullptr, 10)));
     return 0;
   }
+  if (cmd == "enum14" && argc >= 5) {
+    return enumClockSync((unsigned)strtoul(argv[2], nullptr, 10), (unsigned)strtoul(argv[3], nullptr, 10),
+        (unsigned)strtoul(argv[4], nullptr, 10));
+  }
   if (cmd == "sweep13" && argc >= 4) {
     return sweepClockKeep((uint32_t)strtoul(argv[2], nullptr, 10), (uint32_t)strtoul(argv[3], nullptr, 10));
   }
